@@ -181,7 +181,7 @@ class Graph:
                   and probes.get(e['_post'])]
         rnd.shuffle(moving)
         # every probe after every moving edge if that fits the step budget, else an even share per edge
-        total = sum(len(probes[self.edges[i]['_post']]) + 1 for i in moving)
+        total = sum(len(probes.get(self.edges[i]['_post'], [])) + 1 for i in moving)
         per_edge = 0 if budget is None or total <= budget else max(1, budget // max(1, len(moving)) - 1)
         max_walks = None if budget is None else budget // (per_edge + 1 if per_edge else 1)
         walks = []
@@ -198,10 +198,69 @@ class Graph:
                 (rest if key in seen else first).append(pi)
                 seen.add(key)
             pick = (first + rest)[:per_edge] if per_edge else first + rest
-            walks.append(path_to(e['_pre']) + [ei] + pick)
+            # accepted calls that leave the abstract state unchanged (opening an open window again, transfer to
+            # the current holder, zero amounts, queries) are where hidden counters drift: repeat them before the move
+            idem, names = [], set()
+            for li in self.out.get(e['_pre'], []):
+                le = self.edges[li]
+                if le['_post'] == e['_pre'] and le['exp']['ok'] and le['act'].get('name') not in names:
+                    names.add(le['act'].get('name'))
+                    idem.append(li)
+            walks.append(path_to(e['_pre']) + idem[:4] + [ei] + pick)
             if max_walks and len(walks) >= max_walks:
                 break
         return walks
+
+    def single_guard_refusals(self):
+        probes = {}
+        for k, outs in self.out.items():
+            probes[k] = [ei for ei in outs if self.edges[ei]['_post'] == k and not self.edges[ei]['exp']['ok']
+                         and len(self.edges[ei]['exp'].get('fails', [])) == 1 and not self.edges[ei]['exp'].get('free')]
+        return probes
+
+    def add_arrival_probes(self, walks, budget=4000, seed=0):
+        """re-try single-guard refusals on EVERY arrival at a node through a moving edge of the covering walks (whose
+        histories are richer than shortest paths: repeated openings, self-loops taken before the move, detours).
+        Probes are refusals, so they do not disturb the rest of the walk.  Round-robin per node so that different
+        arrivals try different refusals when the budget does not allow all of them each time."""
+        probes = self.single_guard_refusals()
+        rnd = random.Random(seed + 104729)
+        for k in probes:
+            rnd.shuffle(probes[k])
+            # one per distinct (action, guard) first
+            seen, first, rest = set(), [], []
+            for pi in probes[k]:
+                key = (self.edges[pi]['act'].get('name'), tuple(self.edges[pi]['exp']['fails']))
+                (rest if key in seen else first).append(pi)
+                seen.add(key)
+            probes[k] = first + rest
+        arrivals = sum(1 for w in walks for ei in w if self.edges[ei]['_post'] != self.edges[ei]['_pre'] and probes.get(self.edges[ei]['_post']))
+        total = sum(len(probes.get(self.edges[ei]['_post'], [])) for w in walks for ei in w
+                    if self.edges[ei]['_post'] != self.edges[ei]['_pre'])
+        if arrivals == 0:
+            return walks, 0
+        per = None if budget is None or total <= budget else max(1, budget // arrivals)
+        ptr = collections.defaultdict(int)
+        out, added = [], 0
+        for w in walks:
+            nw = []
+            for ei in w:
+                nw.append(ei)
+                e = self.edges[ei]
+                t = e['_post']
+                if t != e['_pre'] and probes.get(t):
+                    c = probes[t]
+                    if per is None or per >= len(c):
+                        pick = c
+                    else:
+                        pick = [c[(ptr[t] + j) % len(c)] for j in range(per)]
+                        ptr[t] += per
+                    if budget is not None and added + len(pick) > budget * 1.2:
+                        continue
+                    nw.extend(pick)
+                    added += len(pick)
+            out.append(nw)
+        return out, added
 
     def node_cover_edges(self):
         """a set of edges whose walks visit every node: BFS tree edges"""
